@@ -41,6 +41,7 @@ import (
 	"sort"
 	"strings"
 	"sync"
+	"time"
 
 	"github.com/nuetzliches/hookaido/internal/config"
 	"github.com/nuetzliches/hookaido/internal/verifkit/runner"
@@ -499,7 +500,7 @@ func calibrateHosts(r *runner.Run, all []hostPat) (hostInterp, bool) {
 }
 
 // runHostFamily enumerates the family and reports its violations; it returns false on an infrastructure error.
-func runHostFamily(r *runner.Run) bool {
+func runHostFamily(r *runner.Run, deadline time.Time) bool {
 	all := hostPatterns()
 	ip, ok := calibrateHosts(r, all)
 	if !ok {
@@ -523,6 +524,7 @@ func runHostFamily(r *runner.Run) bool {
 		classes                       map[string]struct{}
 		failures                      []failure
 		infra                         []string
+		cut                           bool
 	}
 	results := make([]*result, workers)
 	var wg sync.WaitGroup
@@ -533,6 +535,10 @@ func runHostFamily(r *runner.Run) bool {
 		go func(w int) {
 			defer wg.Done()
 			for ci := w; ci < len(cfgs); ci += workers {
+				if time.Now().After(deadline) {
+					res.cut = true
+					return
+				}
 				c := cfgs[ci]
 				pats := c.pats(all)
 				dsl := hostDSL(c, all, bootSeq.Add(1))
@@ -595,13 +601,14 @@ func runHostFamily(r *runner.Run) bool {
 	}
 	wg.Wait()
 
-	good := true
+	good, cut := true, false
 	var fails []failure
 	for _, res := range results {
 		for _, m := range res.infra {
 			r.Infra("%s", m)
 			good = false
 		}
+		cut = cut || res.cut
 		r.Add("evaluations", res.evals)
 		r.Add("host_family_evaluations", res.evals)
 		r.Add("host_family_configs", res.compiled)
@@ -616,6 +623,9 @@ func runHostFamily(r *runner.Run) bool {
 			r.Distinct(k)
 		}
 		fails = append(fails, res.failures...)
+	}
+	if cut {
+		r.NotExhaustive("wall budget reached inside the host pattern family")
 	}
 	r.Set("host_family_request_hosts", len(hosts))
 	r.Set("host_family_patterns", len(all))
